@@ -1213,6 +1213,9 @@ where
         }
 
         std::mem::swap(args, &mut best_args);
+        // best attempt was made in a narrowed scope, don't leak it to the caller: things like
+        // `--help` must still be visible to the outer parser after adjacent group fails
+        args.set_scope(original_scope);
         Err(Error(best_error))
     }
 
